@@ -16,8 +16,8 @@ def run(r):
     # (tokens, max gap length, gap alphabet, slices)
     plans = [(1, 2, [32, 10, 12], 1, [0], 1), (2, 1, [32, 10, 12], 4, [s % 4], 3)]
     if th:
-        plans = [(1, 3, [32, 9, 10, 12], 1, [0], 1), (2, 1, [32, 10, 12], 1, [0], 1), (2, 2, [32, 10], 32, [(s + i) % 32 for i in range(3)], 7),
-                 (3, 1, [32, 10], 64, [(s + i) % 64 for i in range(2)], 1)]    # (twice the slices since every case exists with and without the optional continuation)
+        plans = [(1, 3, [32, 9, 10, 12], 1, [0], 1), (2, 1, [32, 10, 12], 1, [0], 1), (2, 2, [32, 10], 48, [(s + i) % 48 for i in range(3)], 7),
+                 (3, 1, [32, 10], 96, [(s + i) % 96 for i in range(2)], 1)]    # (twice the slices since every case exists with and without the optional continuation)
     stats = []
     for (ntok, gl, al, ns, sls, base) in plans:
         for sl in sls:
